@@ -97,7 +97,7 @@ def check_C14(tier):
             idx.setdefault(key, set()).add(i[comp])
     chk.nontrivial = set(k for k, v in idx.items() if len(v) > 1)
     # random long identities: length bound and distinctness
-    alph = "abcXYZ019_.-<>| "
+    alph = "abcXYZ019_.-<>| /:;=?@[]^\\"
     reqs, metas = [], []
     for n in range(400 if thorough else 120):
         name = "".join(rng.choice(alph) for _ in range(rng.choice([1, 5, 50, 150, 200, 202, 210, 213, 214, 215, 221, 230, 300, 400])))
